@@ -929,7 +929,7 @@ func main() {
 	mon.Main(mon.Options{
 		Property: "C11",
 		Level:    "exploration",
-		Rule: "streams: len = every list length 0..N (quick 130, thorough 400), each with every single-leaf subset, adjacent pairs, all leaves, random multi-subsets (sorted/shuffled, with absent leaves), every right-witness position, update sets, reload; " +
+		Rule: "streams: len = every list length 0..N (quick 160, thorough 400), each with every single-leaf subset, adjacent pairs, all leaves, random multi-subsets (sorted/shuffled, with absent leaves), every right-witness position, update sets, reload; " +
 			"around = lengths 2^k-1,2^k,2^k+1 up to 4096(+) ; rand = random lengths up to 5000; subsets = every non-empty subset for lengths <= 8 (thorough <= 12); dups = lists with repeated leaf data; predict = CalculateRootFromAppendPath at sizes up to 70000 from reference append paths. " +
 			"A case is non-trivial when the tree was built (key: length, leaf format, salt) / per subset mask.",
 		Assumptions: []string{
@@ -941,7 +941,7 @@ func main() {
 	}, func(c *mon.Ctx) {
 		c.One("selfcheck", selfcheck)
 
-		maxLen := c.N(130, 400)
+		maxLen := c.N(160, 400)
 		c.Cases("len", maxLen+1, func(k *mon.Case) {
 			n := k.Index
 			salt := uint64(k.R.Int63())
@@ -966,7 +966,7 @@ func main() {
 			e.fullCheck(depth{allSingles: n <= 260, multi: 10, allWitness: n <= 260, updates: 2, everyStep: false, pebbleFirst: k.Index%2 == 0})
 		})
 
-		c.Cases("rand", c.N(960, 8000), func(k *mon.Case) {
+		c.Cases("rand", c.N(1600, 8000), func(k *mon.Case) {
 			var n int
 			switch k.R.Intn(4) {
 			case 0:
